@@ -1534,14 +1534,18 @@ def check(run, repo):
         'the containing segment, also when the segments are listed from high to low (all four getters) or leave a gap; '
         'concrete temperatures on a bound and 2^-30 K next to it, asked for one after the other on one species and in one '
         'array, are evaluated with the segment that contains them (nothing coarser than the temperature itself may '
-        'identify it); a second species evaluated after another one at the same temperature, and a species whose '
+        'identify it), for bounds at whole kelvins and for bounds 5.3e-8 K above them (a bound that is rounded or kept '
+        'with a fixed number of decimals is another bound; the segments report the bounds they were given); a second species evaluated after another one at the same temperature, and a species whose '
         'segments / coefficients / break temperature were replaced, report their own current polynomial (reference: the '
         'evaluator in an interpreter of its own); array evaluation '
-        'equals element-wise evaluation (bounded unrolling, arrays and a list; when a getter compares the number of '
+        'equals element-wise evaluation (bounded unrolling, arrays and a list, the temperatures pairwise different, '
+        'unsorted and starting with a descent for all three classes, also with an attached model and with a temperature '
+        'that occurs twice; when a getter compares the number of '
         'temperatures with a constant, the lengths on both sides of that constant are unrolled as well); a getter leaves '
         'the temperatures it was given as they were; a result buffer must not take its element type from the '
         'caller\'s temperature container, and a temperature argument is not raised to a negative integer power before '
-        'it is made a float (integer temperatures; forward flow of number kinds through every public evaluator and getter, '
+        'it is made a float (integer temperatures; forward flow of number kinds through every public evaluator and getter - '
+        'entered through what its decorators make of it, helpers that return several values followed value by value - '
         'cross-checked against the negative powers the interpreter computed).')
     run.assumptions = ['identities are over the reals (IEEE rounding not modelled)',
                        'scalar/array agreement is decided for array lengths up to the stated bound and next to every '
